@@ -676,6 +676,197 @@ def method_result_case(rng, n, method, who):
     return prog, inp, "".join(l + "\n" for l in out), doc, what
 
 
+# ---------------------------------------------------------------- scalars arriving in a container through an EXPRESSION
+# bounds = [lo = 0, $.limit = $.limit * 2]: the value of an assignment (=, op=, ++x), of a parenthesised or chained one, or a
+# plain read of a variable / member / document member becomes an element of an array literal, a value of an object literal, an
+# argument of a call (a parameter; an element of the array the function builds), an argument of push.  The container holds a
+# COPY: a later store / ++ / op= into the container leaves the variable, the member and the document alone, and the other way round.
+
+CP_DOC = {"limit": 5.0, "name": "n", "tags": [1.0, 2.0], "sub": {"v": 2.0}}
+CP_VARS = {"x": 1.0, "s": "str", "o": {"k": 1.0, "j": "w"}, "l": [1.0, 2.0, 3.0]}
+CP_VARS_SRC = "x = 1\n s = 'str'\n o = {k: 1, j: 'w'}\n l = [1, 2, 3]"
+CP_LOCS_VAR = [("x", []), ("s", []), ("o", ["k"]), ("o", ["j"]), ("l", [0.0]), ("l", [1.0]), ("l", [-1.0]), ("nv", []), ("o", ["fresh"])]
+CP_LOCS_DOC = [("$", ["limit"]), ("$", ["name"]), ("$", ["tags", 0.0]), ("$", ["tags", -1.0]), ("$", ["sub", "v"]), ("$", ["fresh"]), ("$", ["sub", "w"])]
+CP_SHOW = ["x", "s", "o", "l", "nv", "nw"]
+CP_FORMS = ["array", "array", "object", "nested", "push", "mk", "param", "inobj", "print"]
+
+
+def cp_exists(env, base, keys):
+    if base not in env:
+        return False
+    try:
+        cur = env[base]
+        for k in keys:
+            cur = step_member(cur, k)
+            if cur is ABSENT:
+                return False
+        return True
+    except (RErr, Unspecified):
+        return False
+
+
+def cp_source(rng, env, loc, used_chain):
+    """one expression naming the location loc: (source text, its value, kind); env is updated"""
+    base, keys = loc
+    p = treeref.src_path(base, keys, rng)
+    exists = cp_exists(env, base, keys)
+    old = treeref.read(env, base, keys) if exists else None
+    V = rng.choice([0.0, 7.0, -1.0, 2.5, "new", "", True, False, None, 40.0])
+    forms = ["assign", "assign", "paren"]
+    if exists:
+        forms += ["read", "assign-expr", "assign-expr", "compound", "chain"]
+        if isinstance(old, float):
+            forms += ["preinc", "compound"]
+    form = rng.choice(forms)
+    if form == "chain" and used_chain[0]:
+        form = "assign"
+    if form == "read":
+        return p, old, form
+    if form == "assign":
+        new, src = V, "%s = %s" % (p, pyref.literal(V))
+    elif form == "paren":
+        new, src = V, "(%s = %s)" % (p, pyref.literal(V))
+    elif form == "assign-expr":
+        if isinstance(old, float):
+            new, src = old * 2, "%s = %s * 2" % (p, p)
+        else:
+            new, src = pyref.binop("+", old, "z"), "%s = %s + 'z'" % (p, p)
+    elif form == "compound":
+        if isinstance(old, float):
+            k = rng.choice([1.0, 10.0])
+            new, src = old + k, "%s += %s" % (p, pyref.fmt_f(k))
+        else:
+            new, src = pyref.binop("+", old, "y"), "%s += 'y'" % p
+    elif form == "preinc":
+        new, src = old + 1, "++%s" % p
+    else:
+        used_chain[0] = True
+        new, src = V, "nw = %s = %s" % (p, pyref.literal(V))
+        env["nw"] = copy.deepcopy(V)
+    treeref.store(env, base, keys, copy.deepcopy(new))
+    return src, new, form
+
+
+def cp_case(rng, form=None):
+    """(program, input or None, expected stdout, final document or None, what) or None"""
+    host = rng.choice(["rule", "rule", "begin", "func"])
+    env = copy.deepcopy(CP_VARS)
+    if host == "rule":
+        env["$"] = copy.deepcopy(CP_DOC)
+    locs = CP_LOCS_VAR + (CP_LOCS_DOC * 2 if host == "rule" else [])
+    form = form or rng.choice(CP_FORMS)
+    k = rng.randint(1, 3) if form not in ("object", "nested") else (2 if form == "object" else 3)
+    if form in ("mk", "param", "inobj"):
+        k = 2
+    chosen = []
+    for loc in rng.sample(locs, len(locs)):
+        # one location per base member: l[1] and l[-1] would be the same place
+        if any(loc[0] == c[0] and (loc[1][:1] == c[1][:1] or not loc[1] or not c[1]) for c in chosen):
+            continue
+        chosen.append(loc)
+        if len(chosen) == k:
+            break
+    used_chain = [False]
+    try:
+        srcs = [cp_source(rng, env, loc, used_chain) for loc in chosen]
+    except (RErr, Unspecified, pyref.RuntimeErr):
+        return None
+    texts = [t for t, _, _ in srcs]
+    vals = [copy.deepcopy(v) for _, v, _ in srcs]
+    if any(isinstance(v, (list, dict)) for v in vals):
+        return None
+    lines, out = [], []
+    funcs = ""
+
+    def show():
+        lines.append("print '#', " + ", ".join(CP_SHOW + ["c"]))
+        out.append("# " + " ".join(pyref.pretty(env.get(n, UNSET)) for n in CP_SHOW + ["c"]))
+        if host == "rule":
+            lines.append("print '$', $")
+            out.append("$ " + pyref.pretty(env["$"]))
+
+    # build the container
+    if form == "array":
+        lines.append("c = [%s]" % ", ".join(texts))
+        env["c"] = list(vals)
+        paths = [[float(i)] for i in range(k)]
+    elif form == "object":
+        lines.append("c = {p0: %s, p1: %s}" % tuple(texts))
+        env["c"] = {"p0": vals[0], "p1": vals[1]}
+        paths = [["p0"], ["p1"]]
+    elif form == "nested":
+        lines.append("c = [[%s], {q: %s}, %s]" % tuple(texts))
+        env["c"] = [[vals[0]], {"q": vals[1]}, vals[2]]
+        paths = [[0.0, 0.0], [1.0, "q"], [2.0]]
+    elif form == "inobj":
+        lines.append("c = {arr: [%s, %s], n: 0}" % tuple(texts))
+        env["c"] = {"arr": list(vals), "n": 0.0}
+        paths = [["arr", 0.0], ["arr", 1.0]]
+    elif form == "push":
+        lines.append("c = [0]")
+        for t in texts:
+            lines.append("c.push(%s)" % t)
+        env["c"] = [0.0] + list(vals)
+        paths = [[float(i + 1)] for i in range(k)]
+    elif form == "mk":
+        funcs = "function mk(a, b) {\n return [a, b]\n}\n"
+        lines.append("c = mk(%s, %s)" % tuple(texts))
+        env["c"] = list(vals)
+        paths = [[0.0], [1.0]]
+    elif form == "param":
+        # the parameters are the container: the callee overwrites / increments them and hands them back
+        W = rng.choice([99.0, "w", False])
+        funcs = "function chg(p0, p1) {\n p0 = %s\n p1 += 1\n p1++\n return [p0, p1]\n}\n" % pyref.literal(W)
+        lines.append("c = chg(%s, %s)" % tuple(texts))
+        try:
+            env["c"] = [W, pyref.num(pyref.binop("+", vals[1], 1.0)) + 1.0 if not isinstance(vals[1], str) else None]
+        except pyref.RuntimeErr:
+            return None
+        if isinstance(vals[1], str):
+            return None
+        paths = [[0.0], [1.0]]
+    else:
+        lines.append("print 'p', %s" % ", ".join(texts))
+        out.append("p " + " ".join(pyref.pretty(v) for v in vals))
+        lines.append("c = [%s]" % ", ".join(treeref.src_path(b, ks, rng) for b, ks in chosen))
+        env["c"] = list(vals)
+        paths = [[float(i)] for i in range(k)]
+    show()
+    # change the container, or the places the values came from
+    for step in range(rng.randint(1, 3)):
+        side = rng.choice(["container", "container", "place"])
+        W = rng.choice([-5.0, 0.0, 123.0, "chg", True, None])
+        j = rng.randrange(len(paths))
+        base, keys = ("c", paths[j]) if side == "container" else chosen[j]
+        pth = treeref.src_path(base, keys, rng)
+        try:
+            cur = treeref.read(env, base, keys)
+            w = rng.random()
+            if w < 0.5 or isinstance(cur, (list, dict)):
+                lines.append("%s = %s" % (pth, pyref.literal(W)))
+                treeref.store(env, base, keys, W)
+            elif w < 0.75 and not isinstance(cur, str):
+                lines.append("%s++" % pth)
+                treeref.store(env, base, keys, pyref.num(cur) + 1)
+            else:
+                add = rng.choice([3.0, "q"])
+                lines.append("%s += %s" % (pth, pyref.literal(add)))
+                treeref.store(env, base, keys, pyref.binop("+", cur, add))
+        except (RErr, Unspecified, pyref.RuntimeErr):
+            return None
+        show()
+    body = "\n ".join([CP_VARS_SRC] + lines)
+    if host == "rule":
+        prog, inp = funcs + "{\n %s\n}" % body, json.dumps(CP_DOC)
+    elif host == "begin":
+        prog, inp = funcs + "BEGIN {\n %s\n}" % body, None
+    else:
+        prog, inp = funcs + "function host_() {\n %s\n}\nBEGIN { host_() }" % body, None
+    what = "%s built from %s in %s" % (form, " / ".join(texts), host)
+    assigns = sum(1 for _, _, f in srcs if f != "read")
+    return prog, inp, "".join(l + "\n" for l in out), (env["$"] if host == "rule" else None), what, assigns
+
+
 # ---------------------------------------------------------------- the check
 
 class C09(Check):
@@ -694,7 +885,12 @@ class C09(Check):
             "and document; s = R.sort() for every length 0-20 (numbers, strings, mixed), R.split(','), R.pluck(...) with R a variable, a "
             "member, a parameter, a member of the input document or its root, followed by 1-3 changes (element store at any position "
             "incl. negative / at / past the end, ++, --, +=, push, pop, popfirst, member stores) of the result, of the receiver, or of "
-            "both in turn: both printed after every change, and the final document compared.  non-trivial = a store that creates an "
+            "both in turn: both printed after every change, and the final document compared; 1-3 expressions that name a place -- x = v, "
+            "o.k = v, l[i] = v, $.m = $.m * 2, op=, ++x, a parenthesised or chained assignment, a plain read; variables, members, elements, "
+            "members of the document, missing ones -- used as elements of an array literal, values of an object literal, nested literals, "
+            "arguments of push / of a function that returns them in an array / of a function that overwrites its parameters / of print, "
+            "then 1-3 stores, ++ or op= into the container or into the places: variables, container and document printed after every step "
+            "(the container holds copies).  non-trivial = a store that creates an "
             "intermediate container, or a read of a missing location followed by a dump")
 
     def generate(self, rng, tier):
@@ -770,6 +966,19 @@ class C09(Check):
             k += 1
             cases.append(Case(cid, simple_run(cid, prog, [inp] if inp is not None else []),
                               {"kind": "methres", "prog": prog, "input": inp, "stdout": exp, "final": final, "what": what}, n > 0))
+        # scalars that reach a container as the value of an assignment / compound assignment / ++x / read, as array elements,
+        # object values, arguments: the container holds copies
+        n = 330 if tier == "quick" else 6000
+        k = 0
+        while k < n:
+            cc = cp_case(rng, CP_FORMS[k % len(CP_FORMS)] if k < 6 * len(CP_FORMS) else None)
+            if cc is None:
+                continue
+            prog, inp, exp, final, what, assigns = cc
+            cid = "e%d" % k
+            k += 1
+            cases.append(Case(cid, simple_run(cid, prog, [inp] if inp is not None else []),
+                              {"kind": "exprcopy", "prog": prog, "input": inp, "stdout": exp, "final": final, "what": what}, assigns > 0))
         return cases
 
     def oracle(self, case, impl):
@@ -810,6 +1019,18 @@ class C09(Check):
                     j += 1
                 return "selectors %s: every root is a value of its own; line %d: reference %r, implementation %r (%s)" % (
                     " ".join("-r '%s'" % x for x in m["selectors"]), j + 1, w[j] if j < len(w) else "<end>", g[j] if j < len(g) else "<end>", impl.outcome)
+            return None
+        if kind == "exprcopy":
+            got = impl.stdout.decode("utf-8", "replace")
+            if impl.outcome != "ok" or got != m["stdout"]:
+                w, g = m["stdout"].splitlines(), got.splitlines()
+                j = 0
+                while j < min(len(w), len(g)) and w[j] == g[j]:
+                    j += 1
+                return "%s: the container holds copies of the scalars; line %d: reference %r, implementation %r (%s)" % (
+                    m["what"], j + 1, w[j] if j < len(w) else "<end>", g[j] if j < len(g) else "<end>", impl.outcome)
+            if m["final"] is not None:
+                return self.cmp_json(impl.json, m["final"], "document after changes to the container / the places its values came from")
             return None
         if kind == "methres":
             got = impl.stdout.decode("utf-8", "replace")
